@@ -15,6 +15,7 @@ CONSTANTS
   UserParams <- MC_UserParams
   LockNames <- MC_LockNames
   CallerIds <- MC_CallerIds
+  Lookups = FALSE
   Phased = TRUE
 INIT Init
 NEXT Next
